@@ -88,8 +88,13 @@ pub fn fold_trace(out: &CmdOut, root: &std::path::Path) {
             let end = (i + 11).min(path.len());
             path.replace_range(i..end, "/.tmpXXXXXX");
         }
-        let hash = if t.kind == "info.data" || t.kind == "info.read" { 0 } else { t.hash };
-        let line = format!("{}|{}|{}|{}|{}|{:?}|{}", t.actor, t.kind, path, t.len, hash, t.verdict, t.now);
+        // aot gates carry the address of the compiled cell (ASLR) and whether the real compile
+        // had finished on arrival (wall clock): neither is part of the schedule
+        // ... and the duration gate carries the measured duration as its default
+        let aot = t.kind.starts_with("aot.") || t.kind == "choice.test.duration_us";
+        let hash = if t.kind == "info.data" || t.kind == "info.read" || aot { 0 } else { t.hash };
+        let len = if t.kind.starts_with("aot.") { 0 } else { t.len };
+        let line = format!("{}|{}|{}|{}|{}|{:?}|{}", t.actor, t.kind, path, len, hash, t.verdict, t.now);
         h = simcore::rng::splitmix(h ^ simcore::fsutil::fnv(line.as_bytes()));
         if let Ok(p) = std::env::var("PROCSIM_TRACE_DUMP") {
             use std::io::Write;
